@@ -1,11 +1,11 @@
 CONSTANTS
-  Depth = 4
-  MaxVer = 3
-  MaxNodes = 12
+  Depth = 3
+  MaxVer = 2
+  MaxNodes = 8
   FlagLateLoads = TRUE
   MaxFail = 1
-  ClearFlags = TRUE
-  RecomputeFlags = TRUE
+  ClearFlags = FALSE
+  RecomputeFlags = FALSE
 SPECIFICATION Spec
 INVARIANTS NoPrematureFree NothingLeftBehind
 CHECK_DEADLOCK FALSE
